@@ -19,7 +19,7 @@ import (
 
 const (
 	c03Notice = slog.Level(18) // custom, treated as Info, normal device
-	c03Swell  = slog.Level(19) // custom, treated as Error, error device
+	c03Swell  = slog.Level(72) // custom, treated as Error, error device (an ordinal beyond 63)
 	c03Late   = slog.Level(31) // custom, treated as Error, error device - registered by its probe, i.e. after the history
 )
 
@@ -189,7 +189,7 @@ var c03roots = []string{"fresh detached logger", "child of a configured parent",
 func c03newWorld(root int, firstOpt *c03op) *c03world {
 	resetGlobals()
 	_ = slog.RegisterLevel(c03Notice, "notice18", slog.RegWithTreatedAsLevel(slog.InfoLevel))
-	_ = slog.RegisterLevel(c03Swell, "swell19", slog.RegWithTreatedAsLevel(slog.ErrorLevel), slog.RegWithPrintToErrorDevice(true))
+	_ = slog.RegisterLevel(c03Swell, "swell72", slog.RegWithTreatedAsLevel(slog.ErrorLevel), slog.RegWithPrintToErrorDevice(true))
 	w := &c03world{rec: &recorder{}, names: map[io.Writer]string{}}
 	var w1 io.Writer = &plainW{"w1", w.rec}
 	if root == 3 {
@@ -296,13 +296,18 @@ var c03probes = []struct {
 	{"Warn", slog.WarnLevel, func(l *slog.Entry) { l.Warn("p-warn") }},
 	{"Error", slog.ErrorLevel, func(l *slog.Entry) { l.Error("p-error") }},
 	{"Fail", slog.FailLevel, func(l *slog.Entry) { l.Fail("p-fail") }},
-	{"swell19(error device)", c03Swell, func(l *slog.Entry) { l.LogAttrs(bg, c03Swell, "p-swell") }},
+	{"swell72(error device)", c03Swell, func(l *slog.Entry) { l.LogAttrs(bg, c03Swell, "p-swell") }},
 	{"notice18", c03Notice, func(l *slog.Entry) { l.LogAttrs(bg, c03Notice, "p-notice") }},
 	{"late31 (error device, registered after the writers were configured)", c03Late, func(l *slog.Entry) {
 		_ = slog.RegisterLevel(c03Late, "late31", slog.RegWithTreatedAsLevel(slog.ErrorLevel), slog.RegWithPrintToErrorDevice(true))
 		l.LogAttrs(bg, c03Late, "p-late")
 	}},
 }
+
+// c03reentV logs a Warn record through the logger it is given while the record it belongs to is being formatted.
+type c03reentV struct{ l *slog.Entry }
+
+func (v c03reentV) String() string { v.l.Warn("p-nested"); return "nested-done" }
 
 func refSelect(m c03cfg, lvl slog.Level) []string {
 	if v := m.Leveled[levelName(lvl)]; len(v) > 0 {
@@ -443,6 +448,49 @@ func c03replay(ops []c03op, cas c03case, probeAll bool) (v *Violation, finalKey 
 					return mkv("severity-notification", fmt.Sprintf("severity=%s|got=%s", p.name, strings.Join(w3ev, ",")),
 						fmt.Sprintf("configuration %s, probe %s: level-settable writer w3 saw [%s], expected [%s]", model.key(), p.name, strings.Join(w3ev, ","), strings.Join(wantEv, ",")), upto)
 				}
+			}
+		}
+		// a record whose value logs another record, at a severity of the other class, through the same logger while it is
+		// formatted: every Write of the level-settable writer is still preceded by the severity of the record it is handed
+		w.rec.reset()
+		if pan := catch(func() { w.l.Info("p-reent", "v", c03reentV{w.l}) }); pan != "" {
+			return mkv("probe-returns", "severity=Info with a value that logs a Warn|panic", "probe panicked: "+firstLine(pan), upto)
+		}
+		for name, lvl := range map[string]slog.Level{"p-reent": slog.InfoLevel, "p-nested": slog.WarnLevel} {
+			want := map[string]int{}
+			for _, n := range refSelect(model, lvl) {
+				want[n]++
+			}
+			for _, n := range []string{"w2", "w3", "parentw"} {
+				got := 0
+				for _, e := range w.rec.events {
+					if e.W == n && strings.Contains(e.Payload, name) {
+						got++
+					}
+				}
+				if got != want[n] {
+					return mkv("routing", fmt.Sprintf("record-with-nested-record|%s|writer=%s|cfg=%s", name, n, model.key()),
+						fmt.Sprintf("configuration %s, an Info record whose value logs a Warn record through the same logger: writer %s received the %s record %d time(s), reference %d", model.key(), n, levelName(lvl), got, want[n]), upto)
+				}
+			}
+		}
+		last := ""
+		for _, e := range w.rec.events {
+			if e.W != "w3" {
+				continue
+			}
+			if strings.HasPrefix(e.Payload, "\x00") {
+				last = e.Payload[1:]
+				continue
+			}
+			wantSet := fmt.Sprintf("SetLevel(%d)", int(slog.InfoLevel))
+			if strings.Contains(e.Payload, "p-nested") {
+				wantSet = fmt.Sprintf("SetLevel(%d)", int(slog.WarnLevel))
+			}
+			// (several occurrences of w3 in one list: the notifications may come in one batch; the last one before the Write counts)
+			if last != wantSet {
+				return mkv("severity-notification", "record-with-nested-record|cfg="+model.key(),
+					fmt.Sprintf("configuration %s, an Info record whose value logs a Warn record through the same logger: the level-settable writer w3 was last told %q before it was handed %.60q, expected %s", model.key(), last, e.Payload, wantSet), upto)
 			}
 		}
 		return nil
